@@ -23,9 +23,11 @@ def main():
     ck = Check("C13", "other")
     ck.lean_stage(["VelaVerif.Props.C13"])
     n = 12000 if ck.thorough else 1200
-    profiles = ["weird", "mixed", "cpu", "pattern", "lut", "pattern", "weights", "cascade", "weird", "pattern", "elementwise", "pattern",
-                "gen2:mixed", "gen2:pattern"]      # gen2:<p>: the OUTPUT of profile <p> compiled again (harness/regen.py); the ending judged is the last one
+    profiles = ["weird", "mixed", "cpu", "pattern", "lut", "pattern", "weights", "cascade", "weird", "pattern", "elementwise", "pattern"]
     outs = pipe_common.run_corpus(ck, n, profiles=profiles, want={"more_opts": True}, corpus_first=False)
+    if not ck.replay_arg:
+        # in addition: gen2:<p> = the OUTPUT of profile <p> compiled again (harness/regen.py); the ending judged is the last one
+        outs += pipe_common.run_corpus(ck, n // 8, profiles=["gen2:mixed", "gen2:pattern", "gen2:cpu"], want={"more_opts": True}, corpus_first=False)
     reqs = []
     for o in outs:
         if "harness_exception" in o:
